@@ -9,6 +9,18 @@ From GoCarProofs Require Import BytesFacts VarintFacts CidFacts HeaderFacts Scan
 Definition id_consistent (bs : list block) : Prop :=
   forall b p, In b bs -> cid_parse (fst b) = Some p -> is_identity p = true -> snd b = c_digest p.
 
+Lemma consistentb_sound bs : consistentb bs = true -> consistent bs.
+Proof.
+  unfold consistentb, consistent. intros H b1 b2 p1 p2 H1 H2 E1 E2 Hc Hd.
+  rewrite forallb_forall in H. specialize (H b1 H1). rewrite forallb_forall in H. specialize (H b2 H2).
+  rewrite E1, E2, Hc, Hd, N.eqb_refl, bytes_eqb_refl in H. cbn in H. apply bytes_eqb_eq. exact H.
+Qed.
+Lemma id_consistentb_sound bs : id_consistentb bs = true -> id_consistent bs.
+Proof.
+  unfold id_consistentb, id_consistent. intros H b p Hb Ep Hi.
+  rewrite forallb_forall in H. specialize (H b Hb). rewrite Ep, Hi in H. cbn in H. apply bytes_eqb_eq. exact H.
+Qed.
+
 Lemma raw_cid_parse p : cid_ok p -> cid_parse (raw_cid p) = Some (mkcid 1 85 (c_mhcode p) (c_digest p)).
 Proof.
   intros Hp. unfold raw_cid. apply cid_parse_enc. right. cbn [c_ver c_codec c_mhcode c_digest].
